@@ -100,15 +100,17 @@ theorem next_rank (cfg : Cfg) (w : Nat) (c : WorkerCfg) (pc : Pc) (entry : Optio
   | start =>
     simp only [next] at h
     split at h
-    · split at h <;> (cases h; simp [rankOf, Effect.isEvent, Effect.entryAfter, Effect.callsAfter,
+    · split at h <;> (cases h; by_cases hu : c.action = Action.update <;>
+        simp [hu, rankOf, Effect.isEvent, Effect.entryAfter, Effect.callsAfter,
         loopsBack, Pc.events, Pc.local, WorkerCfg.loopBase, bonus, hW]) <;> omega
     · cases h
-      simp [rankOf, Effect.isEvent, Effect.entryAfter, Effect.callsAfter,
-        loopsBack, Pc.events, Pc.local, WorkerCfg.loopBase, bonus, hW]
-      omega
+      by_cases hu : c.action = Action.update <;>
+        simp [hu, rankOf, Effect.isEvent, Effect.entryAfter, Effect.callsAfter,
+        loopsBack, Pc.events, Pc.local, WorkerCfg.loopBase, bonus, hW] <;> omega
   | sawNone =>
     simp only [next] at h
-    split at h <;> (cases h; simp_all [rankOf, Effect.isEvent, Effect.entryAfter, Effect.callsAfter,
+    split at h <;> (cases h; by_cases hu : c.action = Action.update <;>
+      simp_all [rankOf, Effect.isEvent, Effect.entryAfter, Effect.callsAfter,
         loopsBack, Pc.events, Pc.local, WorkerCfg.loopBase, bonus]) <;> omega
   | sawInProgress g =>
     simp only [next] at h
@@ -131,6 +133,27 @@ theorem next_rank (cfg : Cfg) (w : Nat) (c : WorkerCfg) (pc : Pc) (entry : Optio
     cases k <;> simp only [next] at h
     · split at h <;> (cases h; simp [rankOf, Effect.isEvent, Effect.entryAfter, Effect.callsAfter,
         loopsBack, Pc.events, Pc.local, WorkerCfg.loopBase, bonus, hW])
+    · cases h; simp [rankOf, Effect.isEvent, Effect.entryAfter, Effect.callsAfter,
+        loopsBack, Pc.events, Pc.local, WorkerCfg.loopBase, bonus, hW]
+  | sameOp p =>
+    simp only [next] at h
+    (repeat' split at h) <;> (cases h; simp [rankOf, Effect.isEvent, Effect.entryAfter, Effect.callsAfter,
+        loopsBack, Pc.events, Pc.local, WorkerCfg.loopBase, bonus, hW]) <;> omega
+  | removeOp p k =>
+    cases k <;> simp only [next] at h
+    · split at h <;> (cases h; simp [rankOf, Effect.isEvent, Effect.entryAfter, Effect.callsAfter,
+        loopsBack, Pc.events, Pc.local, WorkerCfg.loopBase, bonus, hW]) <;> omega
+    · cases h; simp [rankOf, Effect.isEvent, Effect.entryAfter, Effect.callsAfter,
+        loopsBack, Pc.events, Pc.local, WorkerCfg.loopBase, bonus, hW]
+  | syncOp k =>
+    cases k <;> simp only [next] at h
+    · (repeat' split at h)
+      · cases h
+        simp only [failPc]
+        split <;> (try split) <;> simp [rankOf, Effect.isEvent, Effect.entryAfter, Effect.callsAfter,
+          loopsBack, Pc.events, Pc.local, WorkerCfg.loopBase, bonus, hW] <;> omega
+      all_goals (cases h; simp [rankOf, Effect.isEvent, Effect.entryAfter, Effect.callsAfter,
+          loopsBack, Pc.events, Pc.local, WorkerCfg.loopBase, bonus, hW])
     · cases h; simp [rankOf, Effect.isEvent, Effect.entryAfter, Effect.callsAfter,
         loopsBack, Pc.events, Pc.local, WorkerCfg.loopBase, bonus, hW]
   | mkdirOp k =>
